@@ -46,6 +46,10 @@ GOVERNS = {
     'PMnvolN': lambda c: c['pmnvol_method'] != 'none',
 }
 
+METHOD_OPTS = ('nox_method', 'hc_method', 'co_method', 'pmvol_method', 'pmnvol_method')
+OPTION_TAG = {'nox_method': r'nox', 'hc_method': r'(?<![a-z])hc(?![a-z])', 'co_method': r'(?<![a-z])co(?![a-z])',
+              'pmvol_method': r'pmvol', 'pmnvol_method': r'pmnvol'}
+
 JET_A = {'name': 'Jet-A', 'energy_MJ_per_kg': 43.2, 'EI_H2O': 1233.3865, 'EI_CO2': 3155.6,
          'non_volatile_carbon_fraction': 0.95, 'lifecycle_CO2': 89.0, 'fuel_sulfur_content_nom': 600.0,
          'sulfate_yield_nom': 0.02}
@@ -237,12 +241,18 @@ def outcome(case, idx=0):
     et, msg = r['error'], r['msg']
     if et in INTERNAL:
         return {'kind': 'internal', 'type': et, 'msg': msg[:200], 'key': r.get('key'), 'bad': [('internal-error', f'{et}: {msg[:160]}')]}
-    # a refusal: does it name the configured (unsupported) method?
+    # a refusal: which configured method does the message name?  candidates = options whose configured value occurs
+    # as a token; if the message also says which option it is talking about (EI_PMnvol_method, pmnvolSwitch, ...)
+    # only the options so tagged count.  Whether the blamed method really is an unsupported one is decided in
+    # check_triples from the run itself: a method that returned an inventory elsewhere in the run is supported, and
+    # a refusal that blames only supported methods does not "name the unsupported method".
     low = msg.lower()
-    named = [o for o in ('nox_method', 'hc_method', 'co_method', 'pmvol_method', 'pmnvol_method')
-             if re.search(rf'(?<![a-z0-9_]){re.escape(cfg[o])}(?![a-z0-9_])', low)]
-    if et in ('NotImplementedError', 'ValueError') and named:
-        return {'kind': 'refused', 'type': et, 'name': cfg[named[-1]], 'msg': msg[:200], 'bad': []}
+    named = [o for o in METHOD_OPTS if re.search(rf'(?<![a-z0-9_]){re.escape(cfg[o])}(?![a-z0-9_])', low)]
+    tagged = [o for o in named if re.search(OPTION_TAG[o], low)]
+    blamed = tagged or named
+    if et in ('NotImplementedError', 'ValueError') and blamed:
+        return {'kind': 'refused', 'type': et, 'name': cfg[blamed[-1]], 'blamed': [[o, cfg[o]] for o in blamed],
+                'msg': msg[:200], 'bad': []}
     if et == 'RuntimeError' and 'lifecycle' in low and case['fuel']['lifecycle_CO2'] is None and cfg['lifecycle_enabled']:
         return {'kind': 'refused', 'type': et, 'name': 'lifecycle', 'msg': msg[:200], 'bad': []}
     return {'kind': 'other', 'type': et, 'msg': msg[:200],
@@ -373,6 +383,13 @@ def check_triples(chk: Check, state, flights, triples, parallel=False):
             c01.reset_config()
     exprs = [coq_outcome_expr(state, cfg, env) for _, cfg, env in triples]
     models = chk.coq_eval(HEADER, exprs, shard=2000, label='outcomes')
+    # methods that demonstrably work in this run: (option, value) of every call that returned an inventory
+    supported = {(o, cfg[o]) for (_, cfg, _), out in zip(triples, outs) if out['kind'] == 'value' for o in METHOD_OPTS}
+    for out in outs:
+        if out['kind'] == 'refused' and out.get('blamed') and all((o, v) in supported for o, v in out['blamed']):
+            out['bad'].append(('misnamed-refusal',
+                               f"{out['type']}: \"{out['msg'][:140]}\" blames {out['blamed']}, which this run shows to be "
+                               'supported (it returned inventories): the refusal does not name the unsupported method'))
     for (fi, cfg, env), o, m in zip(triples, outs, models):
         case_small = {'flight': FLIGHT_NAMES[fi], 'cfg': cfg, 'env': env}
         chk.case(case_small, nontrivial=(cfg != c01.DEFAULT_CFG))
@@ -468,4 +485,6 @@ def replay(chk: Check, rp):
         global FLIGHT_NAMES
         FLIGHT_NAMES, flights = all_flights()
         fi = FLIGHT_NAMES.index(case['flight']) if case.get('flight') in FLIGHT_NAMES else 1
-        check_triples(chk, state, flights, [(fi, case['cfg'], case['env'])])
+        # probes first: each method value on the default background, so that "supported" can be decided
+        probes = [(1, {**c01.DEFAULT_CFG, 'lifecycle_enabled': False, o: v}, ENVS[0]) for o in METHOD_OPTS for v in OPTIONS[o]]
+        check_triples(chk, state, flights, probes + [(fi, case['cfg'], case['env'])])
